@@ -18,6 +18,7 @@ import AITB.Props.C11Dyna2
 import AITB.Props.C09a
 import AITB.Props.C11Policies
 import AITB.Props.C11Extra
+import AITB.Model.LearnersCheck
 import Mathlib.Tactic.NormNum
 
 namespace AITB.Learn
@@ -271,6 +272,21 @@ theorem eval_lambda0_bounded_policies (k : Kind) (hk : k ≠ .is) (γ α tol rmi
     (evs : List TEv) (hr : ∀ e ∈ evs, rmin ≤ e.r ∧ e.r ≤ rmax) :
     Bdd (loB rmin γ) (hiB rmax γ) (evalRun k γ α 0 tol A (polOf kt εt A mat tt) πb evs ([], fun _ _ => 0)).2 :=
   eval_lambda0_bounded_sub k hk γ α tol rmin rmax A _ πb (polOf_subdist kt εt hεt A mat hmat tt) hγ0 hγ1 hα0 hα1 evs hr
+
+/-! ## 6. the sub-stochasticity checker is sound and complete -/
+
+theorem foldl_add_eq_sumTo (f : Nat → Rat) : ∀ n, ((List.range n).map f).foldl (· + ·) 0 = sumTo n f
+  | 0 => rfl
+  | n+1 => by
+    rw [List.range_succ, List.map_append, List.foldl_append, foldl_add_eq_sumTo f n]
+    simp [sumTo]
+
+/-- `subDistRows` on the tabulated policy decides exactly the hypothesis `SubDist` of the theorems, for the states tabulated -/
+theorem subDistRows_iff (S A : Nat) (π : Nat → Nat → Rat) :
+    subDistRows (toRows S A π) = true ↔ ∀ s, s < S → (∀ a, a < A → 0 ≤ π s a) ∧ sumTo A (π s) ≤ 1 := by
+  unfold subDistRows toRows
+  simp only [List.all_map, List.all_eq_true, List.mem_range, Function.comp, Bool.and_eq_true, decide_eq_true_eq,
+    foldl_add_eq_sumTo]
 
 /-! ## 3. RLearning: the update as written is not Schwartz's rule (observation outside C11's quantifier) -/
 
